@@ -268,6 +268,59 @@ def run(rep, tier):
         else:
             rep.bad("C10.R4", f, f.loc, "mode-virtual", "%s does not reach the virtual set_scheduler_mode on every path (qualified call or "
                     "direct update): a static policy's mask is bypassed" % nm)
+    # a normal-priority task is queued on exactly the worker that select_active_pu returned (which is the hinted
+    # one when it is running): the index of queues_[..] at every enqueue site is the variable whose reaching
+    # definition is the select_active_pu call - no wrap-around / arithmetic (that is for the high-priority queues,
+    # of which there may be fewer than workers)
+    PQ = facts(rep, lib("thread_pools", "src/scheduled_thread_pool.cpp"),
+               [r"::(local_priority_queue_scheduler|local_queue_scheduler)::(create_thread|schedule_thread|schedule_thread_last)$"])
+    from engine.kinds import reaching_init
+    nq = 0
+    for fn in PQ.fns:
+        if fn.pattern or fn.parent != -1:
+            continue
+        for b, i, ev in fn.all_events():
+            if not (ev.get("k") == "call" and callee_short(ev) in ("create_thread", "schedule_thread") and ev.get("recv") is not None):
+                continue
+            m = re.match(r"^this->queues_\[(.*)\]\.data_$", P(ev["recv"]))
+            if not m:
+                # through a local pointer: thread_queue_type* q = cond ? a : queues_[k].data_
+                rv = strip(ev["recv"])
+                if isinstance(rv, dict) and rv.get("k") == "var":
+                    ini = reaching_init(fn, rv.get("name"), (b, i))
+                    cands = re.findall(r"this->queues_\[([^\]]*)\]\.data_", T(ini)) if ini is not None else []
+                    if not cands:
+                        continue
+                    idx = cands[0]
+                else:
+                    continue
+            else:
+                idx = m.group(1)
+            nq += 1
+            good = False
+            seen_v = set()
+            cur = idx
+            while re.match(r"^\w+$", cur) and cur not in seen_v:
+                seen_v.add(cur)
+                ini = reaching_init(fn, cur, (b, i))
+                if ini is None:
+                    break
+                si = strip(ini)
+                if isinstance(si, dict) and si.get("k") == "call" and callee_short(si) == "select_active_pu":
+                    good = True
+                    break
+                if isinstance(si, dict) and si.get("k") == "var":
+                    cur = si.get("name")
+                    continue
+                break
+            if good:
+                rep.ok("C10.R4", fn, "%s: queues_[%s] is the worker select_active_pu returned" % (fn.qname.rsplit("::", 1)[-1], idx))
+            else:
+                rep.bad("C10.R4", fn, loc_of(ev), "queue-index:%s" % fn.qname.rsplit("::", 1)[-1], "%s enqueues normal-priority work on queues_[%s], which is not the "
+                        "(unmodified) worker number returned by select_active_pu: a task hinted to a worker is queued on another worker's queue and, "
+                        "under a static policy, runs there" % (fn.qname.rsplit("::", 1)[-1], idx))
+    if nq < 4:
+        raise AnalysisBroken("C10.R4: only %d normal-priority enqueue sites found in the queue schedulers" % nq)
     ctor = PL.find(r"static_priority_queue_scheduler::static_priority_queue_scheduler$", pattern=False)
     if ctor:
         t = " ".join(T(ev) for _, _, ev in ctor[0].all_events() if ev.get("k") == "call" and callee_short(ev) == "remove_scheduler_mode")
